@@ -158,6 +158,7 @@ type Ctx struct {
 	cases                 []Case
 	RunModule             string // Coq module with `case`, `check_case`
 	ShardSize             int
+	HypLine               bool // the Run module defines hyp_case: also print which cases meet the main theorem's hypothesis
 	Extra                 map[string]any
 	Imports               []string // extra TT modules the case files need
 }
@@ -296,6 +297,9 @@ func (c *Ctx) Finish() error {
 			bw.WriteString(c.cases[i].Coq)
 		}
 		fmt.Fprintf(bw, "\n].\nDefinition M := Eval vm_compute in render (map check_case cases).\nPrint M.\n")
+		if c.HypLine {
+			fmt.Fprintf(bw, "Definition H := Eval vm_compute in renderb (map hyp_case cases).\nPrint H.\n")
+		}
 		bw.Flush()
 		f.Close()
 		shards++
